@@ -494,18 +494,23 @@ class HistoryRun:
         data = {rel: self.w.golden_bytes(step["bp"], toggles, rel) for rel in ("sdk/Cargo.toml", "sdk/src/lib.rs", "Cargo.toml")}
         if state == "flipped":
             rel = step["flip"]["file"]
-            b = bytearray(data[rel])
             if rel == "sdk/src/lib.rs":
                 # change one ASCII letter/digit inside the file: still a file of the same length
+                b = bytearray(data[rel])
                 cands = [i for i in range(len(b)) if chr(b[i]).isalnum()]
+                if cands:
+                    i = cands[step["flip"]["draw"] % len(cands)]
+                    b[i] = ord("7") if b[i] != ord("7") else ord("3")
+                data[rel] = bytes(b)
             else:
-                # only inside the [dependencies] table, on a version digit: the TOML stays valid
-                start = bytes(b).find(b"[dependencies]")
-                cands = [i for i in range(max(start, 0), len(b)) if chr(b[i]).isdigit()]
-            if cands:
-                i = cands[step["flip"]["draw"] % len(cands)]
-                b[i] = ord("7") if b[i] != ord("7") else ord("3")
-            data[rel] = bytes(b)
+                # the manifest must stay resolvable offline (`cargo metadata` runs before anything else):
+                # drop one line of the [dependencies] table instead of corrupting a version
+                lines = data[rel].decode().split("\n")
+                start = lines.index("[dependencies]") if "[dependencies]" in lines else 0
+                cands = [i for i in range(start + 1, len(lines)) if " = " in lines[i]]
+                if cands:
+                    del lines[cands[step["flip"]["draw"] % len(cands)]]
+                data[rel] = "\n".join(lines).encode()
         for rel, content in data.items():
             with open(os.path.join(ws, rel), "wb") as f:
                 f.write(content)
